@@ -23,13 +23,16 @@ func (h *Hub) HandleConnectionClosed(connection api.ShipConnectionInterface, han
 
 	// only remove this connection if it is the registered one for the ski!
 	// as we can have double connections but only one can be registered
-	if existingC := h.connectionForSKI(remoteSki); existingC != nil {
-		if existingC.DataHandler() == connection.DataHandler() {
-			h.muxCon.Lock()
-			delete(h.connections, connection.RemoteSKI())
-			h.muxCon.Unlock()
-		}
+	// the comparison and the removal are one step, so that a newer connection
+	// registered in between is not removed instead
+	h.muxCon.Lock()
+	existingC, registered := h.connections[remoteSki]
+	if registered && existingC != nil && existingC.DataHandler() == connection.DataHandler() {
+		delete(h.connections, remoteSki)
+	}
+	h.muxCon.Unlock()
 
+	if registered && existingC != nil {
 		// connection close was after a completed handshake, so we can reset the attetmpt counter
 		if handshakeCompleted {
 			h.removeConnectionAttemptCounter(connection.RemoteSKI())
